@@ -42,6 +42,9 @@ def run_cases(cases, res, stratum):
             with contextlib.redirect_stdout(io.StringIO()):          # the setters print a warning for unusual prefixes
                 xc.config.bin_prefix = pb; xc.config.hex_prefix = ph
             obs['bin_cfg'] = xc.bin(); obs['hex_cfg'] = xc.hex()
+            # an explicit prefix argument wins over the configured one, the empty prefix included
+            xe = A.mk(fx, np, s, n, nf, code); xe.config.bin_prefix = c.get('pbc', '0b'); xe.config.hex_prefix = c.get('phc', '0x')
+            obs['explicit_over_cfg'] = (xe.bin(prefix=''), xe.bin(prefix='', frac_dot=True), xe.bin(prefix='b'), xe.hex(prefix=''), xe.hex(prefix='X'))
             # every prefix the configuration accepts without a warning renders a string that parses back (raw mode; any word length)
             cfgrt = {}
             if n >= 2:
@@ -103,6 +106,9 @@ def run_cases(cases, res, stratum):
         badp = [(k2, v) for k2, v in obs['cfgrt'].items() if v[1] != code or v[0] != k2[1] + (py_bin(n, code) if k2[0] == 'bin' else py_hex(n, code))]
         if badp:
             res.fail(c, 'C11: a string rendered with a prefix the configuration accepts does not parse back to the same code', expected=code, got=[(k2, v[0][:40], v[1]) for k2, v in badp][:2]); continue
+        want_exp = (py_bin(n, code), insert_point(py_bin(n, code), nf), 'b' + py_bin(n, code), py_hex(n, code), 'X' + py_hex(n, code))
+        if tuple(obs['explicit_over_cfg']) != want_exp:
+            res.fail(c, 'C11: an explicit prefix argument (the empty one included) does not win over the configured prefix', expected=want_exp, got=obs['explicit_over_cfg']); continue
         for k in ('bin', 'bin_dot', 'hex', 'hex_default', 'base', 'bin_prefix_true', 'hex_prefix_true', 'hex_nopad', 'base2_dot', 'bin_cfg', 'hex_cfg', 'hex_noprefix'):
             if str(obs[k]) != want[k]:
                 res.fail(c, 'C11: %s is not the faithful image of the stored code' % k, expected=want[k], got=str(obs[k])); bad = True; break
